@@ -98,6 +98,7 @@ def run_mission_impl(case):
         # idle and must not get in the way of the first
         decoy = MissionMobilityPlugin(proto, MissionMobilityConfiguration(speed=1.0, loop_mission=MODES["restart"], tolerance=50.0))  # noqa: F841
     out = []
+    deliver = proto.handle_telemetry if case.get("kept_ref") else (lambda t: proto.handle_telemetry(t))
     for op in case["ops"]:
         proto.provider.cmds = []
         res = "ok"
@@ -119,7 +120,7 @@ def run_mission_impl(case):
             elif op[0] == "setrev":
                 plugin.set_reversed(bool(op[1]))
             elif op[0] == "telem":
-                proto.handle_telemetry(Telemetry(tuple(op[1])))
+                deliver(Telemetry(tuple(op[1])))
         except MissionMobilityPluginException:
             res = "err"
         except IndexError:
@@ -355,6 +356,8 @@ def run_trip_impl(case):
             decoys = (MissionMobilityPlugin(proto, MissionMobilityConfiguration(speed=1.0, tolerance=50.0)),  # noqa: F841
                       RandomMobilityPlugin(proto, RandomMobilityConfig(x_range=(0, 0), y_range=(0, 0), z_range=(0, 0), tolerance=1e9)))
         noops = []
+        # the embedding code may look the callback up once and keep it (a subscriber list): taken after the plugins exist
+        deliver = proto.handle_telemetry if case.get("kept_ref") else (lambda t: proto.handle_telemetry(t))
         for op in case["ops"]:
             proto.provider.cmds = []
             note = ""
@@ -377,7 +380,7 @@ def run_trip_impl(case):
                     if not c or (c[-1].param_1, c[-1].param_2, c[-1].param_3) != tuple(r):
                         note = " returned-differs-from-goto"
                 elif op[0] == "telem":
-                    proto.handle_telemetry(Telemetry(tuple(op[1])))
+                    deliver(Telemetry(tuple(op[1])))
                 elif op[0] in ("telem+finish", "telem+init"):
                     # the protocol's own handle_telemetry (last in the chain) calls the plugin
                     def inner(_t, which=op[0]):
@@ -392,7 +395,7 @@ def run_trip_impl(case):
                             plugin.initiate_random_trip()
                     proto._inner = inner
                     try:
-                        proto.handle_telemetry(Telemetry(tuple(op[1])))
+                        deliver(Telemetry(tuple(op[1])))
                     finally:
                         proto._inner = None
                 ongoing = plugin.trip_ongoing
